@@ -1,285 +1,879 @@
 """C04 - modules and hierarchy mirror the scanned directory tree, named from root_path.
 
-  C04.R1  entry points forward each parameter to the same-role parameter (module-object entry = pure delegation via dirname(__file__))
-  C04.R2  one registration per non-excluded directory / .py file, under the dotted name of its path
-  C04.R3  naming: root directory name + '.' + path relative to the root, suffix removed, separators -> '.'
-  C04.R4  hierarchy: every module gets its ancestor nodes and hierarchy edges; nodes are created from scanned modules and importers only
-  C04.R5  prefixes: absolute-import prefix from module_path.parent relative to root_path.parent; every absolute importee passes the
-          root-prefix adjustment, relative ones never; no character-set strip used as prefix/suffix removal
+  C04.R1  entry points: the module-object entry point is a pure delegation (dirname(__file__) of its two module objects, every other
+          option forwarded to the same-named option); the path entry point hands each option to the consumer of that role
+          (Parser source root <- root_path, scan start <- module_path, file filter <- (regex_)exclusions, ...)
+  C04.R2  one registration per non-excluded directory / .py file (rules/scan.py, shared with C08)
+  C04.R3  naming: root directory name + '.' + path relative to the root, suffix removed, one component per path part;
+          the root itself is named by its directory name
+  C04.R4  hierarchy: every scanned module becomes a node; all its ancestors become nodes and consecutive (parent, child) pairs get
+          an `inherits=True` edge; nodes are never created from *imported* names
+  C04.R5  prefixes: absolute-import prefix = module_path.parent relative to root_path.parent (dotted), empty iff root == module
+          path; every absolute importee is `prefix.name` when that is a scanned module (the sub-module test of `from x import y`
+          is made on the adjusted name), relative importees never are; no character-set strip used as prefix/suffix removal
+
+All rules are evaluated on symbolic executions of *public* entry points (rules/c04_symx.py): `get_evaluable_architecture`,
+`Parser.parse`, `NetworkxGraph.__init__`, `ImportConverter.convert`.  Private helpers are found by being reached from there, never
+by name; locals never appear in what is compared.
 """
 
 from __future__ import annotations
 
 import ast
+import itertools
+import re
 
-from core.flow import Flow, Spec
-from core.guards import atom, f_not, implies
-from core.loader import AnalysisError, FuncInfo, Repo, ancestors, calls_in, header, norm, own_nodes, parent
+from core.loader import AnalysisError, FuncInfo, Repo, calls_in, norm
 from core.report import Result
 
 from . import scan
-from .common import cfg_of, conds, dotted, guard_formula, is_attr_call, loops_around, reachable_funcs, stmt_of, truth, types_of, where
+from .c04_norm import dotted, leaves, loc, restrict, restrict_formula, seq, show_dotted, show_loc, strip_abs, unbox
+from .c04_symx import FALSE, TRUE, Event, Formula, SymX, Term, Trace, atom, atoms_of, evaluate, f_and, f_not, f_or, implies, is_const, rewrite, show, show_formula, simplify, substitute, subterms
+from .common import stmt_of, types_of, where
 
 ENTRY = "pytestarch.pytestarch"
-GG = "pytestarch.eval_structure_generation.graph_generation.graph_generator"
-PARSER = "pytestarch.eval_structure_generation.file_import.parser"
 NXGRAPH = "pytestarch.eval_structure.networkxgraph"
 CONVERTER = "pytestarch.eval_structure_generation.file_import.converter"
-
-# role map get_evaluable_architecture -> generate_graph (argument source -> callee parameter), one reason per renamed role
-GEN_ROLES = [
-    ("root_as_path", "root_path"),
-    ("module_as_path", "module_path"),
-    ("path_diff_between_root_and_module", "path_diff_between_root_and_module"),
-    ("regex_exclusions", "exclusions"),  # generate_graph receives regex patterns only: globs are converted before
-    ("exclude_external_libraries", "exclude_external_libraries"),
-    ("level_limit", "level_limit"),
-    ("regex_external_exclusions", "external_exclusions"),  # same: already converted
-]
+TYPES = "pytestarch.eval_structure.types"
 
 
 def run(repo: Repo) -> Result:
     res = Result("C04")
     res.explanation = (
-        "Decides (a) fully, that the module-object entry point is a pure delegation with dirname(__file__) of its first two parameters and "
-        "every other parameter forwarded to the same-named one, hence builds the same architecture; (b) that the path entry point forwards "
-        "each role to generate_graph; (c) registration: one module per non-excluded directory / .py file under _get_module_name(path) with the "
-        "documented naming shape; (d) hierarchy: ancestors and hierarchy edges for every module, nodes created only from scanned modules and "
-        "importers (never from imported names); (e) the absolute-import prefix and its uniform application to absolute importees."
+        "Decides, on symbolic executions of the public entry points (helpers are followed, locals replaced by their values): (a) the "
+        "module-object entry point is a pure delegation with dirname(__file__) of its first two parameters and every other parameter "
+        "forwarded to the same-named one, hence builds the same architecture; (b) the path entry point hands every option to the consumer "
+        "of its role; (c) registration: a module is registered exactly for every non-excluded directory / .py file, under the dotted name "
+        "`<root name>.<relative path without suffix>` of that path; (d) hierarchy: node for every scanned module, nodes and inherits-edges "
+        "along all its ancestors, no node from imported names; (e) the absolute-import prefix and its application to absolute importees."
     )
     res.not_decided = "names for arbitrary directory trees and 'sub-scan = restriction of the whole scan' (relations over concrete trees)."
-    res.trusted_base = ["pathlib / os.path semantics", "engine flow analysis"]
-    T = types_of(repo)
-    # ---- R1
-    ge = repo.func(ENTRY, "get_evaluable_architecture")
-    gm = repo.func(ENTRY, "get_evaluable_architecture_for_module_objects")
-    calls = [c for c in calls_in(gm.node) if dotted(c.func) == ge.name]
-    if len(calls) != 1:
-        raise AnalysisError("module-object entry point: delegation call not found")
-    call = calls[0]
-    rets = [s for s in own_nodes(gm.node) if isinstance(s, ast.Return)]
-    ok = len(rets) == 1 and rets[0].value is call and not conds(gm, call)
-    res.add("C04.R1", f"{gm.relpath}::{gm.qualname}::pure delegation", ok, "returns get_evaluable_architecture(...) unconditionally" if ok else "the module-object entry point is not an unconditional delegation to the path entry point", where(gm, call), kind="structural")
-    bound: dict[str, ast.expr] = {}
-    for i, a in enumerate(call.args):
-        if i < len(ge.param_names):
-            bound[ge.param_names[i]] = a
-    for k in call.keywords:
-        if k.arg:
-            bound[k.arg] = k.value
-
-    def resolve(e: ast.expr) -> ast.expr:
-        if isinstance(e, ast.Name) and e.id not in gm.param_names:
-            a = [s for s in own_nodes(gm.node) if (isinstance(s, ast.Assign) and dotted(s.targets[0]) == e.id) or (isinstance(s, ast.AnnAssign) and dotted(s.target) == e.id)]
-            if len(a) == 1:
-                return a[0].value
-        return e
-
-    for i, pname in enumerate(ge.param_names):
-        a = bound.get(pname)
-        if i < 2:
-            v = resolve(a) if a is not None else None
-            want_src = gm.param_names[i]
-            ok = isinstance(v, ast.Call) and dotted(v.func) in ("os.path.dirname", "dirname") and len(v.args) == 1 and norm(v.args[0]) == f"{want_src}.__file__"
-            res.add("C04.R1", f"{gm.relpath}::{gm.qualname}::{pname} <- dirname({want_src}.__file__)", ok, f"{pname} = directory of {want_src}" if ok else f"`{pname}` receives `{norm(v) if v is not None else 'nothing'}` instead of os.path.dirname({want_src}.__file__)", where(gm, call), kind="flow")
-        else:
-            ok = a is not None and dotted(a) == pname and pname in gm.param_names
-            same_default = True
-            if pname in gm.param_names:
-                d1 = T._default_of(gm, next(p for p in gm.params if p.arg == pname))
-                d2 = T._default_of(ge, next(p for p in ge.params if p.arg == pname))
-                same_default = (norm(d1) if d1 is not None else None) == (norm(d2) if d2 is not None else None)
-            res.add("C04.R1", f"{gm.relpath}::{gm.qualname}::{pname} forwarded", ok and same_default, f"{pname} forwarded unchanged (same default)" if ok and same_default else (f"`{pname}` of the path entry point receives `{norm(a) if a is not None else 'its default'}` from the module-object entry point" if not ok else f"default of `{pname}` differs between the two entry points"), where(gm, call), kind="flow")
-    gen = repo.func(GG, "generate_graph")
-    gcalls = [c for c in calls_in(ge.node) if dotted(c.func) == gen.name]
-    if len(gcalls) != 1:
-        raise AnalysisError("get_evaluable_architecture: generate_graph call not found")
-    gb: dict[str, ast.expr] = {}
-    for i, a in enumerate(gcalls[0].args):
-        if i < len(gen.param_names):
-            gb[gen.param_names[i]] = a
-    for k in gcalls[0].keywords:
-        if k.arg:
-            gb[k.arg] = k.value
-    for src, dst in GEN_ROLES:
-        a = gb.get(dst)
-        ok = a is not None and dotted(a) == src
-        res.add("C04.R1", f"{ge.relpath}::{ge.qualname}::{dst} <- {src}", ok, f"generate_graph({dst}={src})" if ok else f"generate_graph receives `{norm(a) if a is not None else 'nothing'}` as `{dst}` instead of `{src}`", where(ge, gcalls[0]), kind="flow")
-    # how the local roles are built
-    for var, builder, arg in (("root_as_path", "Path", "root_path"), ("module_as_path", "Path", "module_path")):
-        a = [s for s in own_nodes(ge.node) if isinstance(s, ast.Assign) and dotted(s.targets[0]) == var]
-        ok = len(a) == 1 and isinstance(a[0].value, ast.Call) and dotted(a[0].value.func) == builder and dotted(a[0].value.args[0]) == arg
-        res.add("C04.R1", f"{ge.relpath}::{ge.qualname}::{var} = Path({arg})", ok, f"{var} is the Path of {arg}" if ok else f"`{var}` is not Path({arg})", where(ge, ge.node), kind="flow")
-    a = [s for s in own_nodes(ge.node) if isinstance(s, ast.Assign) and dotted(s.targets[0]) == "path_diff_between_root_and_module"]
-    ok = len(a) == 1 and "module_as_path.relative_to(root_as_path)" in norm(a[0].value, 300) and ".replace(os.sep, '.')" in norm(a[0].value, 300)
-    res.add("C04.R1", f"{ge.relpath}::{ge.qualname}::path difference", ok, "path difference = module_path relative to root_path in dotted notation" if ok else "the path difference is not str(module_path.relative_to(root_path)) with separators replaced by '.'", where(ge, ge.node), kind="structural")
-    # ---- R2
+    res.trusted_base = ["pathlib / os.path semantics", "symbolic executor rules/c04_symx.py"]
+    rule_r1(repo, res)
     n = scan.run_registration(repo, res, "C04.R2")
     res.floor("C04.R2", 7, n)
-    # ---- R3
-    pc = repo.cls(PARSER, "Parser")
-    gmn = pc.methods.get("_get_module_name")
-    p = gmn.param_names[1]
-    rets = [s for s in own_nodes(gmn.node) if isinstance(s, ast.Return)]
-    rel = [s for s in own_nodes(gmn.node) if isinstance(s, ast.Assign) and isinstance(s.value, ast.Call) and is_attr_call(s.value, "relative_to")]
-    ok_rel = len(rel) == 1 and dotted(rel[0].value.func.value) == p and norm(rel[0].value.args[0]) == "self._source_root"
-    res.add("C04.R3", f"{gmn.relpath}::{gmn.qualname}::relative to the source root", ok_rel, "names are computed from the path relative to the source root" if ok_rel else "module names are not computed from path.relative_to(source_root)", where(gmn, gmn.node), kind="structural")
-    root_ret = [r for r in rets if norm(r.value) == "self._source_root.name"]
-    ok = len(root_ret) == 1 and ok_rel and implies(guard_formula(gmn, root_ret[0]), truth(gmn, f"str({dotted(rel[0].targets[0])}) == '.'")) if rel else False
-    res.add("C04.R3", f"{gmn.relpath}::{gmn.qualname}::root maps to its own name", ok, "the root directory itself is named by its directory name" if ok else "the source root is not named by its own directory name exactly when the relative path is '.'", where(gmn, gmn.node), kind="dominance")
-    other = [r for r in rets if r not in root_ret]
-    ok = False
-    if len(other) == 1 and isinstance(other[0].value, ast.JoinedStr):
-        parts = other[0].value.values
-        texts = [norm(v.value) if isinstance(v, ast.FormattedValue) else repr(v.value) for v in parts]
-        if len(parts) == 3 and texts[0] == "self._source_root.name" and texts[1] == "'.'":
-            dv = parts[2].value
-            chain = []
-            cur = dv
-            for _ in range(4):
-                if isinstance(cur, ast.Name):
-                    asg = [s for s in own_nodes(gmn.node) if isinstance(s, ast.Assign) and dotted(s.targets[0]) == cur.id]
-                    if len(asg) != 1:
-                        break
-                    chain.append(norm(asg[0].value, 200))
-                    nxt = [x for x in ast.walk(asg[0].value) if isinstance(x, ast.Name) and x.id != "os" and x.id != "str"]
-                    cur = nxt[0] if nxt else None
+    rule_r3(repo, res)
+    rule_r4(repo, res)
+    rule_r5(repo, res)
+    return res
+
+
+# =========================================================================== R1
+
+
+def _bind_args(callee: FuncInfo, e: Event) -> dict[str, Term]:
+    """Argument terms of a call event by parameter name of the callee (receiver parameter skipped)."""
+    names = callee.param_names
+    if callee.cls is not None and callee.outer is None and not callee.is_staticmethod:
+        names = names[1:]
+    out: dict[str, Term] = {}
+    for i, a in enumerate(e.args):
+        if a[0] == "star":
+            break
+        if i < len(names):
+            out[names[i]] = a
+    for k, v in e.kwargs:
+        if k in names:
+            out[k] = v
+    return out
+
+
+def _default(fi: FuncInfo, name: str) -> str | None:
+    a = fi.node.args
+    pos = [*a.posonlyargs, *a.args]
+    for i, p in enumerate(pos):
+        if p.arg == name:
+            j = i - (len(pos) - len(a.defaults))
+            return norm(a.defaults[j]) if j >= 0 else None
+    for p, d in zip(a.kwonlyargs, a.kw_defaults):
+        if p.arg == name:
+            return norm(d) if d is not None else None
+    return None
+
+
+def _param_leaves(t: Term, fi: FuncInfo) -> set[str]:
+    return {x[1] for x in leaves(t, ("param",)) if x[1] in fi.param_names}
+
+
+def _canon_text(t: Term) -> str:
+    """Text of a term with location wrappers removed and symbol numbers erased (for comparing two executions)."""
+
+    def fix(x: Term):
+        if x[0] == "call" and x[1][0] == "lib" and x[1][1] in ("pathlib.Path", "pathlib.PurePath", "os.fspath") and len(x[2]) == 1:
+            return x[2][0]
+        if x[0] == "call" and x[1] == ("builtin", "str") and len(x[2]) == 1:
+            return x[2][0]
+        if x[0] == "call" and x[1] == ("lib", "os.path.dirname") and len(x[2]) == 1:
+            return ("attr", x[2][0], "parent")
+        return None
+
+    return re.sub(r"#\d+", "#", show(rewrite(t, fix)))
+
+
+API_EVENTS = {"Parser", "parse", "Config", "ImportConverter", "convert", "ExternalImportFilter", "filter", "NetworkxGraph", "EvaluableArchitectureGraph", "ImporteeModuleCalculator", "calculate_importee_modules"}
+
+
+def rule_r1(repo: Repo, res: Result) -> None:
+    T = types_of(repo)
+    ge = repo.func(ENTRY, "get_evaluable_architecture")
+    gm = repo.func(ENTRY, "get_evaluable_architecture_for_module_objects")
+    # ---- the module-object entry point
+    sx = SymX(repo, T, keep=lambda f: f.fq == ge.fq)
+    tr = sx.run(gm)
+    calls = [e for e in tr.events if e.kind == "call" and e.func == ("fn", ge.fq)]
+    tag = f"{gm.relpath}::{gm.qualname}"
+    if len(calls) == 1:
+        call = calls[0]
+        rets = [t for _pc, t in tr.returns]
+        ok = call.guard == TRUE and all(t == call.result for t in rets) and bool(rets)
+        res.add("C04.R1", f"{tag}::pure delegation", ok, "returns get_evaluable_architecture(...) unconditionally" if ok else "the module-object entry point is not an unconditional delegation to the path entry point", where(call.fi, call.node), kind="structural")
+        bound = _bind_args(ge, call)
+        for i, pname in enumerate(ge.param_names):
+            a = bound.get(pname)
+            if i < 2:
+                src = gm.param_names[i] if i < len(gm.param_names) else "?"
+                want = ("PARENT", ("attr", ("param", src), "__file__"))
+                got = loc(a) if a is not None else None
+                ok = got == want
+                res.add("C04.R1", f"{tag}::{pname} <- dirname({src}.__file__)", ok, f"{pname} = directory of {src}" if ok else f"`{pname}` receives `{show_loc(got) if got is not None else 'nothing'}` instead of the directory of {src}.__file__", where(call.fi, call.node), kind="flow")
+            else:
+                ok = a == ("param", pname) and pname in gm.param_names
+                same_default = pname not in gm.param_names or _default(gm, pname) == _default(ge, pname)
+                if a is None and pname in gm.param_names and _default(ge, pname) is not None:
+                    detail = f"`{pname}` of the module-object entry point is not forwarded: the path entry point always uses its default"
+                elif not ok:
+                    detail = f"`{pname}` of the path entry point receives `{show(a, 80) if a is not None else 'its default'}` from the module-object entry point"
+                elif not same_default:
+                    detail = f"default of `{pname}` differs between the two entry points"
                 else:
-                    break
-            text = " <- ".join(chain)
-            ok = ".replace(os.sep, '.')" in text and ".with_suffix('')" in text and (dotted(rel[0].targets[0]) in text if rel else False)
-    res.add("C04.R3", f"{gmn.relpath}::{gmn.qualname}::naming shape", ok, "name = root directory name + '.' + relative path without suffix, separators replaced by '.'" if ok else "the module name is not `<root name>.<relative path without suffix, os.sep -> '.'>`", where(gmn, gmn.node), kind="structural")
-    # ---- R4
+                    detail = f"{pname} forwarded unchanged (same default)"
+                res.add("C04.R1", f"{tag}::{pname} forwarded", ok and same_default, detail, where(call.fi, call.node), kind="flow")
+    else:
+        # no direct delegation: both entry points must perform the same calls of the scanning / graph API, with
+        # root_path := dirname(root_module.__file__), module_path := dirname(module.__file__)
+        _r1_same_api_calls(repo, res, T, ge, gm)
+    # ---- the path entry point: every option reaches the consumer of its role
+    sx2 = SymX(repo, T)
+    tr2 = sx2.run(ge)
+    tag = f"{ge.relpath}::{ge.qualname}"
+    p = ge.param_names
+    want_names = ["root_path", "module_path", "exclusions", "exclude_external_libraries", "level_limit", "regex_exclusions", "external_exclusions", "regex_external_exclusions"]
+    if p != want_names:
+        res.undecide("C04.R1", f"{tag}::signature", f"the public signature changed to {p}: the roles of the options are not known", where(ge, ge.node))
+        return
+
+    def single(name: str, what: str) -> Event | None:
+        evs = [e for e in tr2.events if e.kind == "call" and e.name == name]
+        if len(evs) != 1:
+            res.undecide("C04.R1", f"{tag}::{what}", f"{len(evs)} `{name}` call(s) reached from the path entry point (expected exactly one)", where(ge, ge.node))
+            return None
+        return evs[0]
+
+    parser_cls = repo.cls(scan.PARSER, "Parser")
+    init = repo.lookup_method(parser_cls, "__init__")
+    ctor = single("Parser", "scanner construction")
+    if ctor is not None and init is not None:
+        b = _bind_args(init, ctor)
+        names = init.param_names[1:]
+        root_arg = b.get(names[1]) if len(names) > 1 else None
+        got = loc(root_arg) if root_arg is not None else None
+        ok = got == ("param", "root_path")
+        res.add("C04.R1", f"{tag}::source root of the scan <- root_path", ok, "module names are computed relative to root_path" if ok else f"the scanner's source root is `{show_loc(got) if got is not None else '?'}`, not root_path: module names no longer start at the root directory", where(ctor.fi, ctor.node), kind="flow")
+        filt = b.get(names[0]) if names else None
+        pl = _param_leaves(filt, ge) if filt is not None else set()
+        ok = pl == {"exclusions", "regex_exclusions"}
+        res.add("C04.R1", f"{tag}::file filter <- exclusions / regex_exclusions", ok, "the scan filter is built from the file exclusion options" if ok else f"the scan filter is built from {sorted(pl) or 'no option'} instead of exclusions / regex_exclusions", where(ctor.fi, ctor.node), kind="flow")
+        start = [e for e in tr2.events if e.kind == "call" and e.name == "parse" and e.recv == ctor.result]
+        if len(start) == 1:
+            got = loc(start[0].arg(0)) if start[0].arg(0) is not None else None
+            ok = got == ("param", "module_path")
+            res.add("C04.R1", f"{tag}::scan start <- module_path", ok, "the scan starts at module_path" if ok else f"the scan starts at `{show_loc(got) if got is not None else '?'}`, not at module_path", where(start[0].fi, start[0].node), kind="flow")
+        else:
+            res.undecide("C04.R1", f"{tag}::scan start", f"{len(start)} `parse` call(s) on the scanner", where(ge, ge.node))
+    ext = single("ExternalImportFilter", "external import filter")
+    if ext is not None:
+        a0 = ext.arg(0, "exclude_external_libraries")
+        ok = a0 == ("param", "exclude_external_libraries")
+        res.add("C04.R1", f"{tag}::external filter flag <- exclude_external_libraries", ok, "the flag is forwarded" if ok else f"the external-import filter receives `{show(a0, 60) if a0 is not None else '?'}` as its flag", where(ext.fi, ext.node), kind="flow")
+        a2 = ext.arg(2, "external_exclusions")
+        pl = _param_leaves(a2, ge) if a2 is not None else set()
+        ok = pl == {"external_exclusions", "regex_external_exclusions"}
+        res.add("C04.R1", f"{tag}::external filter patterns <- external_exclusions / regex_external_exclusions", ok, "the external patterns are forwarded" if ok else f"the external-import filter patterns are built from {sorted(pl) or 'no option'}", where(ext.fi, ext.node), kind="flow")
+    g = single("NetworkxGraph", "graph construction")
+    if g is not None:
+        a2 = g.arg(2, "level_limit")
+        pl = _param_leaves(a2, ge) if a2 is not None else set()
+        ok = "level_limit" in pl and pl <= {"level_limit", "root_path", "module_path"}
+        res.add("C04.R1", f"{tag}::graph depth <- level_limit", ok, "the level limit (shifted by the root/module offset) reaches the graph" if ok else f"the graph's level limit is built from {sorted(pl) or 'no option'}", where(g.fi, g.node), kind="flow")
+        a0 = g.arg(0, "all_modules")
+        ok = a0 is not None and any(x[0] == "mcall" and x[2] == "parse" for x in subterms(a0))
+        res.add("C04.R1", f"{tag}::graph modules <- scan result", ok, "the graph is built from the scanned modules" if ok else "the module list of the graph does not come from the scan", where(g.fi, g.node), kind="flow")
+
+
+def _r1_same_api_calls(repo: Repo, res: Result, T, ge: FuncInfo, gm: FuncInfo) -> None:
+    tag = f"{gm.relpath}::{gm.qualname}"
+    a = SymX(repo, T).run(gm)
+    subst = {}
+    for i, pname in enumerate(ge.param_names):
+        if i < 2 and i < len(gm.param_names):
+            subst[("param", pname)] = ("attr", ("attr", ("param", gm.param_names[i]), "__file__"), "parent")
+    b = SymX(repo, T).run(ge)
+
+    def sig(tr: Trace, mapping: dict) -> list[str]:
+        out = []
+        for e in tr.events:
+            if e.kind == "call" and e.name in API_EVENTS:
+                args = [rewrite(x, lambda y: mapping.get(y)) for x in e.args]
+                out.append(f"{e.name}({', '.join(_canon_text(x) for x in args)})")
+        return out
+
+    sa, sb = sig(a, {}), sig(b, subst)
+    if not sa or not sb:
+        res.undecide("C04.R1", f"{tag}::delegation", "the module-object entry point neither calls the path entry point nor reaches the scanning API", where(gm, gm.node))
+        return
+    ok = sa == sb
+    diff = next((f"`{x}` vs `{y}`" for x, y in itertools.zip_longest(sa, sb, fillvalue="nothing") if x != y), "")
+    res.add("C04.R1", f"{tag}::same scanning calls as the path entry point", ok, "both entry points perform the same calls with dirname(__file__) as paths" if ok else f"the two entry points differ: {diff[:300]}", where(gm, gm.node), kind="flow")
+
+
+# =========================================================================== R3
+
+
+def _root_tests(sx: SymX, fs, rel: Term) -> dict[str, bool]:
+    """Atoms of the formulas `fs` that test 'the path is the source root itself' -> polarity (True: atom true means root)."""
+    out: dict[str, bool] = {}
+    for key in sorted({a for f in fs for a in atoms_of(f)}):
+        t = sx.atoms.get(key)
+        if t is None:
+            continue
+        if t[0] == "cmp" and t[1] == "==":
+            a, b = t[2], t[3]
+            c, o = (a, b) if a[0] == "const" else (b, a)
+            if is_const(c, ".") and loc(o) == rel:
+                out[key] = True
+            elif loc(a) == rel and loc(b) == ("const", ".") or loc(b) == rel and loc(a) == ("const", "."):
+                out[key] = True
+            elif {strip_abs(loc(a)), strip_abs(loc(b))} == {strip_abs(rel[1]), strip_abs(rel[2])}:
+                out[key] = True
+        else:
+            l = loc(t)
+            if l == ("attr", rel, "parts"):
+                out[key] = False
+            elif t[0] == "call" and t[1] == ("builtin", "len") and len(t[2]) == 1 and loc(t[2][0]) == ("attr", rel, "parts"):
+                out[key] = False
+    return out
+
+
+def rule_r3(repo: Repo, res: Result) -> None:
+    info = scan.analyse(repo)
+    sx = info.sx
+    done = 0
+    for reg in info.regs:
+        e = reg.event
+        key = repo.key(e.fi, stmt_of(e.node))
+        wh = where(e.fi, e.node)
+        if reg.path is None:
+            continue  # reported by R2
+        el = reg.element
+        # the relative location the name is built from
+        rels = {l for x in subterms(el) for l in [loc(x)] if l[0] == "REL" and strip_abs(l[1]) == strip_abs(loc(reg.path))}
+        if len(rels) != 1:
+            res.add("C04.R3", key + " [name relative to the source root]", False, f"the registered name `{show(el, 120)}` is not computed from the path relative to one source root", wh, kind="structural")
+            continue
+        rel = rels.pop()
+        root = rel[2]
+        init = repo.lookup_method(info.parse.cls, "__init__") if info.parse.cls else None
+        root_param = f"{info.parse.cls.name}.{init.param_names[2]}" if init is not None and len(init.param_names) > 2 else None
+        ok = root == ("param", root_param) if info.ctor_heap else root[0] == "attr" and root[1] == ("param", info.parse.param_names[0])
+        res.add("C04.R3", key + " [relative to the source root]", ok, "names are computed from the path relative to the scanner's source root" if ok else f"module names are computed relative to `{show_loc(root)}`, not to the source root handed to the scanner", wh, kind="structural")
+        alts = list(el[1]) if el[0] == "phi" else [(TRUE, el)]
+        want = [("item", ("attr", root, "name")), ("parts", ("NOSUF", rel))]
+        want_root = [("item", ("attr", root, "name"))]
+        general = [(g, v) for g, v in alts if dotted(v) != want_root]
+        rootcase = [(g, v) for g, v in alts if dotted(v) == want_root]
+        done += 1
+        # ---- general shape
+        bad = [(g, v) for g, v in general if dotted(v) != want]
+        if not general:
+            res.add("C04.R3", key + " [naming shape]", False, "every path is named by the root directory's name alone", wh, kind="structural")
+        elif bad:
+            g, v = bad[0]
+            d = dotted(v)
+            if d is None:
+                if any(x[0] == "mcall" and x[2] in ("strip", "lstrip", "rstrip", "removesuffix", "removeprefix", "split", "rsplit", "partition", "rpartition") for x in subterms(v)) or True:
+                    res.undecide("C04.R3", key + " [naming shape]", f"cannot read `{show(v, 160)}` as a dotted name", wh)
+            else:
+                why = "does not start with the root directory's name" if not d or d[0] != want[0] else "is not the path relative to the root with the suffix removed, one component per path part"
+                res.add("C04.R3", key + " [naming shape]", False, f"the module name is `{show_dotted(d)}`: it {why} (expected `{show_dotted(want)}`)", wh, kind="structural")
+        else:
+            res.add("C04.R3", key + " [naming shape]", True, "name = root directory name + '.' + relative path without suffix, one component per path part", wh, kind="structural")
+        # ---- the root itself
+        tests = _root_tests(sx, [g for g, _ in alts], rel)
+
+        def as_root(f: Formula) -> Formula:
+            from .c04_norm import rename_atoms
+
+            return rename_atoms(f, lambda k: (atom("ROOT") if tests[k] else f_not(atom("ROOT"))) if k in tests else None)
+
+        if not rootcase:
+            ok = False
+            detail = "the source root itself is not named by its own directory name (no case for the empty relative path: the general form fails or appends an empty component)"
+        else:
+            g_root = as_root(f_or([g for g, _v in rootcase]))
+            g_gen = as_root(f_or([g for g, _v in general])) if general else FALSE
+            ok = implies(atom("ROOT"), g_root) and implies(g_root, atom("ROOT")) and implies(g_gen, f_not(atom("ROOT")))
+            detail = "the root directory itself is named by its directory name" if ok else f"the source root is not named by its own directory name exactly when the relative path is empty (root case under `{show_formula(g_root)[:120]}`)"
+        res.add("C04.R3", key + " [root maps to its own name]", ok, detail, wh, kind="dominance")
+    res.floor("C04.R3", 2, done)
+
+
+# =========================================================================== R4
+
+
+def _chain_pos(t: Term):
+    """(sequence, loop id, offset, range descriptor) if `t` is the element of a sequence at a loop-dependent position."""
+    if t[0] == "elem":
+        src, k = t[1], t[2]
+        if src[0] == "slice":
+            base, lo, hi, step = src[1], src[2], src[3], src[4]
+            if is_const(step, None) and is_const(lo, None) and is_const(hi, -1):
+                return base, k, 0, "zip"
+            if is_const(step, None) and is_const(lo, 1) and is_const(hi, None):
+                return base, k, 1, "zip"
+            return None
+        if src[0] == "call" and src[1][0] == "lib" and src[1][1] in ("itertools.pairwise", "more_itertools.pairwise"):
+            return None
+        return src, k, 0, "zip"
+    if t[0] == "idx":
+        base, i = t[1], t[2]
+        if base[0] == "elem" and base[1][0] == "call" and base[1][1][0] == "lib" and base[1][1][1].endswith("pairwise") and len(base[1][2]) == 1 and i[0] == "const" and i[1] in (0, 1):
+            return base[1][2][0], base[2], i[1], "zip"
+        off = 0
+        if i[0] == "binop" and i[1] in ("+", "-") and i[3][0] == "const" and isinstance(i[3][1], int):
+            off = i[3][1] if i[1] == "+" else -i[3][1]
+            i = i[2]
+        if i[0] == "elem" and i[1][0] == "call" and i[1][1] == ("builtin", "range"):
+            return base, i[2], off, ("range", i[1][2])
+    return None
+
+
+def _len_offset(t: Term, s: Term):
+    """c if `t` is `len(s) + c`, else None."""
+    if t == ("call", ("builtin", "len"), (s,), ()):
+        return 0
+    if t[0] == "binop" and t[1] in ("+", "-") and t[2] == ("call", ("builtin", "len"), (s,), ()) and t[3][0] == "const" and isinstance(t[3][1], int):
+        return t[3][1] if t[1] == "+" else -t[3][1]
+    return None
+
+
+def _covers_all_pairs(parent, child) -> bool:
+    """The loop visits (s[j], s[j+1]) for every j in 0 .. len(s) - 2."""
+    s1, k1, o1, r1 = parent
+    s2, k2, o2, r2 = child
+    if unbox(s1) != unbox(s2) and s1 != s2 or k1 != k2 or o2 != o1 + 1:
+        return False
+    if r1 == "zip" and r2 == "zip":
+        return True
+    if isinstance(r1, tuple) and r1 == r2:
+        args = r1[1]
+        start: Term = ("const", 0)
+        if len(args) == 1:
+            stop = args[0]
+        elif len(args) == 2:
+            start, stop = args
+        else:
+            return False
+        if start[0] != "const" or not isinstance(start[1], int):
+            return False
+        c = _len_offset(stop, s1)
+        # first pair index: start + o1 == 0 ; last: (len + c - 1) + o1 == len - 2
+        return c is not None and start[1] + o1 == 0 and c - 1 + o1 == -2
+    return False
+
+
+class _Names:
+    """Classification of the name symbols a node / edge end is made from."""
+
+    def __init__(self, modules_param: str, imports_param: str) -> None:
+        self.modules = ("param", modules_param)
+        self.imports = ("param", imports_param)
+
+    def _is_iter_of(self, t: Term, param: Term) -> bool:
+        src = t
+        while src[0] == "call" and src[1] in (("builtin", "list"), ("builtin", "tuple"), ("builtin", "sorted"), ("builtin", "iter")) and len(src[2]) == 1:
+            src = src[2][0]
+        return src == param
+
+    def symbol(self, t: Term):
+        """(kind, detail) for a term that *is* a name symbol, else None."""
+        if t[0] == "elem" and self._is_iter_of(t[1], self.modules):
+            return ("SCANNED", t)
+        if t[0] == "mcall" and t[2] in ("importer", "importee", "importer_parent_modules", "importee_parent_modules") and t[1][0] == "elem" and self._is_iter_of(t[1][1], self.imports):
+            return ("IMPORTEE" if t[2].startswith("importee") else "IMPORTER", t)
+        pos = _chain_pos(t)
+        if pos is not None:
+            inner = self.sources(pos[0])
+            kinds = {k for k, _ in inner}
+            if kinds:
+                kind = "IMPORTEE" if "IMPORTEE" in kinds else "IMPORTER" if "IMPORTER" in kinds else "SCANNED" if kinds == {"SCANNED"} else "OTHER"
+                return (kind + "-CHAIN", t)
+        return None
+
+    def sources(self, t: Term) -> list:
+        """Name symbols a value is derived from (outermost symbols only)."""
+        out: list = []
+
+        def visit(x: Term) -> None:
+            s = self.symbol(x)
+            if s is not None:
+                if s not in out:
+                    out.append(s)
+                return
+            if x[0] in ("elem", "loopvar") :
+                s2 = ("OTHER", x)
+                if s2 not in out:
+                    out.append(s2)
+                return
+            from .c04_symx import map_children
+
+            map_children(x, lambda y: (visit(y), y)[1])
+
+        visit(t)
+        return out
+
+
+def _graph_state_atoms(sx: SymX, f: Formula, graph: Term, config: set[str], ends: tuple = ()) -> set[str]:
+    """Atoms that only look at the graph built so far, at configuration parameters, or compare the two ends of an edge."""
+    ok = set()
+    for key in atoms_of(f):
+        t = sx.atoms.get(key)
+        if t is None:
+            continue
+        if t[0] == "cmp" and t[1] == "==" and len(ends) == 2 and {t[2], t[3]} == set(ends):
+            ok.add(key)  # an edge from a node to itself is never created
+            continue
+        subs = list(subterms(t))
+        if any(x == graph for x in subs):
+            ok.add(key)
+            continue
+        params = {x[1] for x in subs if x[0] == "param"}
+        if params and params <= config and not any(x[0] in ("elem", "loopvar", "mcall") for x in subs):
+            ok.add(key)
+    return ok
+
+
+def _holds_whenever_state_allows(f: Formula, free: set[str]) -> bool:
+    """True if for every valuation of the other atoms some valuation of the `free` atoms makes `f` true."""
+    names = sorted(atoms_of(f))
+    others = [n for n in names if n not in free]
+    fr = [n for n in names if n in free]
+    if len(names) > 14:
+        return False
+    for ov in itertools.product([False, True], repeat=len(others)):
+        env = dict(zip(others, ov))
+        if not any(evaluate(f, {**env, **dict(zip(fr, fv))}) for fv in itertools.product([False, True], repeat=len(fr))):
+            return False
+    return True
+
+
+def rule_r4(repo: Repo, res: Result) -> None:
+    T = types_of(repo)
     g = repo.cls(NXGRAPH, "NetworkxGraph")
-    aam = g.methods.get("_add_all_modules_as_nodes")
-    aeh = g.methods.get("_add_edges_within_module_hierarchy")
-    if aam is None or aeh is None:
-        raise AnalysisError("NetworkxGraph._add_all_modules_as_nodes / _add_edges_within_module_hierarchy not found")
-    lp = [l for l in own_nodes(aam.node) if isinstance(l, ast.For) and norm(l.iter) == "self._all_modules"]
-    ok = len(lp) == 1 and not any(isinstance(x, (ast.Break, ast.Continue, ast.If)) for x in ast.walk(lp[0]))
-    if ok:
-        mv = dotted(lp[0].target)
-        cn = [c for c in ast.walk(lp[0]) if isinstance(c, ast.Call) and is_attr_call(c, "_create_node") and dotted(c.args[0]) == mv]
-        he = [c for c in ast.walk(lp[0]) if isinstance(c, ast.Call) and is_attr_call(c, aeh.name) and isinstance(c.args[0], ast.Call) and dotted(c.args[0].func) == "get_parent_modules" and dotted(c.args[0].args[0]) == mv and dotted(c.args[1]) == mv]
-        ok = len(cn) == 1 and len(he) == 1
-    res.add("C04.R4", f"{aam.relpath}::{aam.qualname}::every module: node + ancestors", ok, "every scanned module becomes a node and is linked to all its ancestors" if ok else "not every scanned module becomes a node linked to get_parent_modules(module)", where(aam, aam.node), kind="structural")
-    zl = [l for l in own_nodes(aeh.node) if isinstance(l, ast.For) and isinstance(l.iter, ast.Call) and dotted(l.iter.func) == "zip"]
-    ok = False
-    if len(zl) == 1:
-        allv = None
-        for s in own_nodes(aeh.node):
-            if isinstance(s, ast.Assign) and isinstance(s.value, ast.BinOp) and norm(s.value) == f"{aeh.param_names[1]} + [{aeh.param_names[2]}]":
-                allv = dotted(s.targets[0])
-        z = zl[0].iter
-        pair = [norm(a) for a in z.args] == [f"{allv}[:-1]", f"{allv}[1:]"] if allv else False
-        tv = [dotted(x) for x in zl[0].target.elts] if isinstance(zl[0].target, ast.Tuple) else []
-        cn = [c for c in ast.walk(zl[0]) if isinstance(c, ast.Call) and is_attr_call(c, "_create_node") and tv and dotted(c.args[0]) == tv[0]]
-        ce = [c for c in ast.walk(zl[0]) if isinstance(c, ast.Call) and is_attr_call(c, "_create_edge") and tv and [dotted(a) for a in c.args[:2]] == tv and any(k.arg == "inherits" and isinstance(k.value, ast.Constant) and k.value.value is True for k in c.keywords)]
-        ok = pair and len(cn) == 1 and len(ce) == 1 and not any(isinstance(x, (ast.Break, ast.Continue, ast.If)) for x in ast.walk(zl[0]))
-    res.add("C04.R4", f"{aeh.relpath}::{aeh.qualname}::consecutive parent->child hierarchy edges", ok, "each consecutive (ancestor, descendant) pair gets a node and a hierarchy edge" if ok else "ancestors are not linked pairwise with inherits=True edges (and nodes) for the whole chain", where(aeh, aeh.node), kind="structural")
-    # who may create nodes: scanned modules and importers, never imported names
     init = g.methods.get("__init__")
-    construction = [f for f in reachable_funcs(repo, [init], byname=False) if f.cls is g]
+    if init is None:
+        raise AnalysisError("NetworkxGraph.__init__ not found")
+    gpm = repo.find_func(TYPES, "get_parent_modules")
+    if gpm is None:
+        raise AnalysisError("pytestarch.eval_structure.types::get_parent_modules (imported by the graph and the import types) not found")
+    p = init.param_names
+    if len(p) < 3:
+        raise AnalysisError("NetworkxGraph.__init__(all_modules, imports, level_limit): signature not recognised")
+    sx = SymX(repo, T, keep=lambda f: f.fq == gpm.fq)
+    tr = sx.run(init)
+    tag = f"{init.relpath}::NetworkxGraph"
+    graphs = {e.result for e in tr.events if e.kind == "call" and e.func[0] == "lib" and e.func[1] in ("networkx.DiGraph", "networkx.Graph", "networkx.MultiDiGraph")}
+    if len(graphs) != 1:
+        res.undecide("C04.R4", f"{tag}::graph object", f"{len(graphs)} networkx graph objects are created during construction", where(init, init.node))
+        return
+    graph = graphs.pop()
+    names = _Names(p[1], p[2])
+    config = {p[3]} if len(p) > 3 else set()
+    node_events: list[tuple[Event, Term]] = []
+    edge_events: list[tuple[Event, Term, Term, Term | None]] = []
+    for e in tr.events:
+        if e.recv != graph or e.kind not in ("call", "mut"):
+            continue
+        if e.name == "add_node" and e.args:
+            node_events.append((e, e.args[0]))
+        elif e.name == "add_edge" and len(e.args) >= 2:
+            inh = next((v for k, v in e.kwargs if k == "inherits"), None)
+            edge_events.append((e, e.args[0], e.args[1], inh))
+        elif e.name in ("add_nodes_from", "add_edges_from", "add_weighted_edges_from", "update", "add_path"):
+            res.undecide("C04.R4", repo.key(e.fi, stmt_of(e.node)) + f" [{e.name}]", "bulk graph construction is not analysed", where(e.fi, e.node))
 
-    def sources(f: FuncInfo, e: ast.expr):
-        if isinstance(e, ast.Attribute) and dotted(e) == "self._all_modules":
-            return {"SCANNED"}
-        if isinstance(e, ast.Call) and isinstance(e.func, ast.Attribute) and e.func.attr in ("importer", "importer_parent_modules") and not e.args:
-            return {"IMPORTER"}
-        if isinstance(e, ast.Call) and isinstance(e.func, ast.Attribute) and e.func.attr in ("importee", "importee_parent_modules") and not e.args:
-            return {"IMPORTEE"}
-        return None
+    def unconditional(e: Event) -> tuple[bool, str]:
+        f = f_and(e.pc)
+        free = _graph_state_atoms(sx, f, graph, config, tuple(e.args[:2]) if e.name == "add_edge" else ())
+        if any(l.early_exit for l in e.loops):
+            l = next(l for l in e.loops if l.early_exit)
+            return False, f"the enclosing loop `{norm(l.node, 60).split(':')[0]}` can be left early (break / return)"
+        if _holds_whenever_state_allows(f, free):
+            return True, ""
+        extra = sorted(a for a in atoms_of(f) if a not in free)
+        return False, f"it additionally depends on `{' , '.join(extra)[:200]}`"
 
-    def node_transfer(f: FuncInfo, call_: ast.Call, names, args, recv, kwargs):
-        # the flattening helper maps a name to (a prefix of) itself: keep the argument's provenance, context-sensitively
-        if isinstance(call_.func, ast.Attribute) and call_.func.attr == "_flatten_graph_node" and args:
-            return set(args[0])
-        return None
-
-    flow = Flow(repo, T, Spec(sources=sources, transfer=node_transfer, objects_carry=False, scope=lambda f: f in construction))
+    # ---- no node from imported names (every node creation)
     k = 0
-    for f in construction:
-        for c in calls_in(f.node):
-            arg = None
-            if is_attr_call(c, "add_node") and "_graph" in norm(c.func.value) and c.args:
-                arg = c.args[0]
-            elif is_attr_call(c, "_create_node") and c.args:
-                arg = c.args[0]
-            if arg is None:
+    for e, a in node_events:
+        src = names.sources(a)
+        kinds = sorted({s[0] for s in src})
+        k += 1
+        ok = not any(kd.startswith("IMPORTEE") for kd in kinds)
+        res.add("C04.R4", repo.key(e.fi, stmt_of(e.node)) + f" [node from {kinds or ['?']}]", ok, "nodes are created from scanned modules / importers and their ancestors" if ok else f"`{norm(e.node, 60)}` creates a node from an *imported* name ({show(next(s[1] for s in src if s[0].startswith('IMPORTEE')), 100)}): names that are not files or directories of the scanned tree (relative import parts, functions, classes) become modules", where(e.fi, e.node), kind="flow")
+    res.floor("C04.R4.nodes", 2, k)
+    # ---- every scanned module becomes a node
+    direct = [(e, a) for e, a in node_events if [s[0] for s in names.sources(a)] == ["SCANNED"]]
+    if not direct:
+        res.add("C04.R4", f"{tag}::every scanned module becomes a node", False, "no node is created from the elements of the module list", where(init, init.node), kind="structural")
+    else:
+        verdicts = [unconditional(e) for e, _a in direct]
+        ok = any(v[0] for v in verdicts)
+        e0 = direct[0][0]
+        res.add("C04.R4", f"{tag}::every scanned module becomes a node", ok, "every element of the module list becomes a node" if ok else f"not every scanned module becomes a node: {verdicts[0][1]}", where(e0.fi, e0.node), kind="structural")
+    # ---- ancestors: nodes and consecutive inherits edges along get_parent_modules(module) + [module]
+    chains = []
+    for e, a, b, inh in edge_events:
+        pa, pb = _sym_pos(names, a), _sym_pos(names, b)
+        if pa is None or pb is None:
+            continue
+        srcs = names.sources(pa[0])
+        if {s[0] for s in srcs} != {"SCANNED"}:
+            continue
+        chains.append((e, pa, pb, inh))
+    if not chains:
+        res.add("C04.R4", f"{tag}::hierarchy edges of scanned modules", False, "no edge is created between consecutive members of a scanned module's ancestor chain", where(init, init.node), kind="structural")
+        return
+    best = None
+    for e, pa, pb, inh in chains:
+        s = pa[0]
+        parts = seq(s)
+        problems = []
+        mod = None
+        if len(parts) == 2 and parts[0][0] == "many" and parts[1][0] == "one":
+            mod = parts[1][1]
+            anc = parts[0][1]
+            if not (anc[0] == "call" and anc[1] == ("fn", gpm.fq) and anc[2] == (mod,)):
+                problems.append(f"the ancestors are `{show(anc, 80)}`, not all parent modules get_parent_modules(module) of the module")
+            if names.symbol(mod) is None or names.symbol(mod)[0] != "SCANNED":
+                problems.append(f"the chain ends in `{show(mod, 60)}`, not in the scanned module")
+        else:
+            problems.append(f"the linked chain is `{show(s, 100)}`, not get_parent_modules(module) + [module]")
+        if not _covers_all_pairs(pa, pb):
+            problems.append("the loop does not visit every consecutive (parent, child) pair of the chain")
+        if not (inh is not None and is_const(inh, True)):
+            problems.append(f"the edge is created with inherits={show(inh, 30) if inh is not None else 'its default'}, not inherits=True")
+        okc, why = unconditional(e)
+        if not okc:
+            problems.append(f"the edge creation is not unconditional: {why}")
+        # parents become nodes in the same loop
+        parent_nodes = [(ne, na) for ne, na in node_events if _sym_pos(names, na) is not None and _sym_pos(names, na)[:3] == pa[:3]]
+        if not parent_nodes:
+            problems.append("no node is created for the parent of each pair (ancestor packages without own files are missing)")
+        else:
+            v = [unconditional(ne) for ne, _ in parent_nodes]
+            if not any(x[0] for x in v):
+                problems.append(f"the ancestor nodes are not created unconditionally: {v[0][1]}")
+        cand = (len(problems), e, problems)
+        if best is None or cand[0] < best[0]:
+            best = cand
+    assert best is not None
+    _n, e, problems = best
+    ok = not problems
+    res.add("C04.R4", f"{tag}::ancestors of every scanned module: nodes and consecutive parent->child hierarchy edges", ok, "every scanned module is linked to all its ancestors: each consecutive (ancestor, descendant) pair gets a node and an inherits=True edge" if ok else "scanned modules are not linked to all their ancestors: " + "; ".join(problems), where(e.fi, e.node), kind="structural")
+
+
+def _sym_pos(names: _Names, t: Term):
+    """Chain position of the single name symbol a node / edge end is made from."""
+    src = names.sources(t)
+    if len(src) != 1:
+        return None
+    return _chain_pos(src[0][1])
+
+
+# =========================================================================== R5
+
+
+def _concretise(sx: SymX, t: Term, facts: dict, internal: Term, depth: int = 0):
+    """Tuple of name components `t` evaluates to when membership of dotted names in `internal` is given by `facts`; None if unknown."""
+    if depth > 12:
+        return None
+    t = unbox(t)
+    if t[0] == "phi":
+        chosen = []
+        for g, v in t[1]:
+            val = _eval_guard(sx, g, facts, internal, depth + 1)
+            if val is None:
+                return None
+            if val:
+                chosen.append(v)
+        if len(chosen) != 1:
+            return None
+        return _concretise(sx, chosen[0], facts, internal, depth + 1)
+    if t[0] == "const" and isinstance(t[1], str):
+        return tuple(("c", p) for p in t[1].split(".")) if t[1] else ()
+    if t[0] == "fstr" or (t[0] == "binop" and t[1] == "+"):
+        items = t[1] if t[0] == "fstr" else (t[2], t[3])
+        out: list = []
+        glue = False  # the previous piece did not end at a separator
+        for x in items:
+            if x[0] == "const" and isinstance(x[1], str):
+                pieces = x[1].split(".")
+                for i, pc_ in enumerate(pieces):
+                    if i:
+                        glue = False
+                    if pc_:
+                        if glue:
+                            return None
+                        out.append(("c", pc_))
+                        glue = True
                 continue
-            tags = set(flow.tags(arg))
-            k += 1
-            ok = "IMPORTEE" not in tags
-            res.add("C04.R4", repo.key(f, stmt_of(c)) + f" [node from {sorted(tags) or ['?']}]", ok, "nodes are created from scanned modules / importers and their ancestors" if ok else f"`{norm(c, 60)}` creates a node from an *imported* name: names that are not files or directories of the scanned tree (relative import parts, functions, classes) become modules", where(f, c), kind="flow")
-    res.floor("C04.R4.nodes", 3, k)
-    # ---- R5
-    gap = repo.func(GG, "_get_absolute_import_prefix")
-    rets = [s for s in own_nodes(gap.node) if isinstance(s, ast.Return)]
-    empty = [r for r in rets if isinstance(r.value, ast.Constant) and r.value.value == ""]
-    main = [r for r in rets if r not in empty]
-    ok = len(empty) == 1 and len(main) == 1 and "module_path.parent.relative_to(root_path.parent)" in norm(main[0].value, 300) and ".replace(os.sep, '.')" in norm(main[0].value, 300)
-    res.add("C04.R5", f"{gap.relpath}::{gap.qualname}::prefix source", ok, "absolute-import prefix = module_path.parent relative to root_path.parent, dotted" if ok else f"the absolute-import prefix is `{norm(main[0].value, 100) if main else '?'}`: not module_path.parent relative to root_path.parent in dotted notation", where(gap, gap.node), kind="structural")
-    if empty:
-        gf = guard_formula(gap, empty[0])
-        ok = any("_actual_difference" in a for a in map(str, [gf])) or bool(conds(gap, empty[0]))
-        res.add("C04.R5", f"{gap.relpath}::{gap.qualname}::no prefix without a path difference", ok, "no prefix when root_path equals module_path" if ok else "the empty prefix is returned unconditionally", where(gap, empty[0]), nontrivial=False)
-    # strip-family calls with a multi-character / computed argument remove a character *set*, not a prefix or suffix
-    s_n = 0
+            sub = _concretise(sx, x, facts, internal, depth + 1)
+            if sub is None or glue:
+                return None
+            out += list(sub)
+            glue = True
+        return tuple(out)
+    if t[0] in ("param", "attr", "elem", "idx", "mcall", "call", "loopvar"):
+        return (("s", t),)
+    return None
+
+
+def _eval_guard(sx: SymX, g: Formula, facts: dict, internal: Term, depth: int):
+    env = {}
+    for key in atoms_of(g):
+        t = sx.atoms.get(key)
+        if t is None or not (t[0] == "cmp" and t[1] == "in" and t[3] == internal):
+            return None
+        name = _concretise(sx, t[2], facts, internal, depth + 1)
+        if name is None or name not in facts:
+            return None
+        env[key] = facts[name]
+    return evaluate(g, env)
+
+
+def _name_symbols(sx: SymX, t: Term, internal: Term, depth: int = 0) -> list[Term]:
+    """Opaque pieces (in order of first occurrence) a dotted name and the names tested for membership in `internal` are made of."""
+    out: list[Term] = []
+
+    def add(xs) -> None:
+        for x in xs:
+            if x not in out:
+                out.append(x)
+
+    if depth > 12:
+        return out
+    t = unbox(t)
+    if t[0] == "phi":
+        for g, v in t[1]:
+            for key in sorted(atoms_of(g)):
+                a = sx.atoms.get(key)
+                if a is not None and a[0] == "cmp" and a[1] == "in" and a[3] == internal:
+                    add(_name_symbols(sx, a[2], internal, depth + 1))
+            add(_name_symbols(sx, v, internal, depth + 1))
+    elif t[0] == "fstr":
+        for x in t[1]:
+            add(_name_symbols(sx, x, internal, depth + 1))
+    elif t[0] == "binop" and t[1] == "+":
+        add(_name_symbols(sx, t[2], internal, depth + 1))
+        add(_name_symbols(sx, t[3], internal, depth + 1))
+    elif t[0] != "const":
+        out.append(t)
+    return out
+
+
+def _guard_atoms(t: Term) -> set[str]:
+    """Atom keys of the guards of all guarded choices inside a term (including choices inside tested names)."""
+    out: set[str] = set()
+    for x in subterms(t):
+        if x[0] == "phi":
+            for g, _v in x[1]:
+                out |= atoms_of(g)
+    return out
+
+
+def _show_name(n) -> str:
+    return ".".join(p[1] if p[0] == "c" else show(p[1], 40) for p in n)
+
+
+def rule_r5(repo: Repo, res: Result) -> None:
+    T = types_of(repo)
+    # ---- strip-family calls with a multi-character / computed argument remove a character *set*, not a prefix or suffix
+    from core.fold import fold
+
     for f in repo.all_functions():
         for c in calls_in(f.node):
             if isinstance(c.func, ast.Attribute) and c.func.attr in ("strip", "lstrip", "rstrip") and c.args:
                 a = c.args[0]
                 single = isinstance(a, ast.Constant) and isinstance(a.value, str) and len(a.value) == 1
                 if not single:
-                    from core.fold import fold
-
-                    v = fold(repo, f.module, a, f)
+                    try:
+                        v = fold(repo, f.module, a, f)
+                    except Exception:  # noqa: BLE001
+                        v = None
                     single = v is not None and len(v) == 1
-                s_n += 1
                 res.add("C04.R5", repo.key(f, stmt_of(c)) + f" [{norm(c, 50)}]", single, "strips a single character" if single else f"`{norm(c, 70)}` removes any run of the *characters* of its argument, not that suffix/prefix: path components spelled with those letters are eaten as well", where(f, c), kind="structural")
-    # sibling consistency: absolute importees pass the root-prefix adjustment, relative ones do not
-    conv = repo.cls(CONVERTER, "ImportConverter")
-    cv = conv.methods.get("_convert")
-    adj = conv.methods.get("_adjust_with_root_prefix")
-    if cv is None or adj is None:
-        raise AnalysisError("ImportConverter._convert / _adjust_with_root_prefix not found")
+    # ---- the prefix handed to the converter by the path entry point
+    ge = repo.func(ENTRY, "get_evaluable_architecture")
+    sx = SymX(repo, T)
+    tr = sx.run(ge)
+    tag = f"{ge.relpath}::{ge.qualname}"
+    conv_cls = repo.cls(CONVERTER, "ImportConverter")
+    convert = conv_cls.methods.get("convert")
+    if convert is None:
+        raise AnalysisError("ImportConverter.convert (public entry point of the import conversion) not found")
+    cp = convert.param_names[1:]
+    if len(cp) != 3:
+        raise AnalysisError("ImportConverter.convert(asts, absolute_import_prefix, internal_modules): signature not recognised")
+    calls = [e for e in tr.events if e.kind == "call" and e.func == ("fn", convert.fq)]
+    if len(calls) != 1:
+        res.undecide("C04.R5", f"{tag}::absolute-import prefix", f"{len(calls)} calls of ImportConverter.convert reached from the path entry point", where(ge, ge.node))
+    else:
+        e = calls[0]
+        b = _bind_args(convert, e)
+        prefix = b.get(cp[1])
+        M, R = ("param", "module_path"), ("param", "root_path")
+        rel_mr = ("REL", M, R)
+        want = [("parts", ("REL", ("PARENT", M), ("PARENT", R)))]
+        if prefix is None:
+            res.undecide("C04.R5", f"{tag}::absolute-import prefix", "no prefix argument", where(e.fi, e.node))
+        else:
+            prefix = restrict(prefix, e.guard)
+            alts = list(prefix[1]) if prefix[0] == "phi" else [(TRUE, prefix)]
+            empty = [(g, v) for g, v in alts if is_const(v, "")]
+            main = [(g, v) for g, v in alts if not is_const(v, "")]
+            ds = [dotted(v) for _g, v in main]
+            key = f"{tag}::absolute-import prefix"
+            if not main:
+                res.add("C04.R5", key + " [source]", False, "the absolute-import prefix is always empty: imports written relative to module_path's parent never resolve", where(e.fi, e.node), kind="structural")
+            elif any(d is None for d in ds):
+                v = main[ds.index(None)][1]
+                res.undecide("C04.R5", key + " [source]", f"cannot read the prefix `{show(v, 160)}` as a dotted path", where(e.fi, e.node))
+            elif any(d != want for d in ds):
+                d = next(d for d in ds if d != want)
+                res.add("C04.R5", key + " [source]", False, f"the absolute-import prefix is `{show_dotted(d)}`: not module_path.parent relative to root_path.parent in dotted notation", where(e.fi, e.node), kind="structural")
+            else:
+                res.add("C04.R5", key + " [source]", True, "absolute-import prefix = module_path.parent relative to root_path.parent, dotted", where(e.fi, e.node), kind="structural")
+            # empty exactly when root and module path coincide
+            tests = {}
+            for k_ in sorted({a_ for g, _ in alts for a_ in atoms_of(g)}):
+                t = sx.atoms.get(k_)
+                if t is None:
+                    continue
+                if t[0] == "cmp" and t[1] == "==":
+                    a, b2 = t[2], t[3]
+                    c, o = (a, b2) if a[0] == "const" else (b2, a)
+                    if is_const(c, ".") and (dotted(o) == [("parts", rel_mr)] or loc(o) == rel_mr):
+                        tests[k_] = True
+                    elif {strip_abs(loc(a)), strip_abs(loc(b2))} == {M, R}:
+                        tests[k_] = True
+                elif loc(t) == ("attr", rel_mr, "parts"):
+                    tests[k_] = False
+            from .c04_norm import rename_atoms
 
-    def transfer(f: FuncInfo, call_: ast.Call, names, args, recv, kwargs):
-        if isinstance(call_.func, ast.Attribute) and call_.func.attr == adj.name:
-            return {"ADJ"}
-        return None
+            def as_same(f: Formula) -> Formula:
+                return rename_atoms(f, lambda k_: (atom("SAME") if tests[k_] else f_not(atom("SAME"))) if k_ in tests else None)
 
-    def src2(f: FuncInfo, e: ast.expr):
-        if isinstance(e, ast.Attribute) and e.attr in ("name", "module") and isinstance(e.value, ast.Name):
-            return {"RAWNAME"}
-        return None
-
-    fl2 = Flow(repo, T, Spec(sources=src2, transfer=transfer, objects_carry=False, scope=lambda f: f is cv))
+            if not empty:
+                # the general form yields '' on its own only when parent.relative_to(parent) is '.', which is not the empty prefix
+                res.add("C04.R5", key + " [no prefix without a path difference]", False, "a prefix is used even when root_path equals module_path", where(e.fi, e.node), kind="dominance")
+            else:
+                g_empty = as_same(f_or([g for g, _ in empty]))
+                ok = implies(g_empty, atom("SAME")) and implies(atom("SAME"), g_empty)
+                if not ok and atoms_of(g_empty) - {"SAME"}:
+                    res.undecide("C04.R5", key + " [no prefix without a path difference]", f"cannot read `{show_formula(g_empty)[:160]}` as the test 'root_path equals module_path'", where(e.fi, e.node))
+                else:
+                    res.add("C04.R5", key + " [no prefix without a path difference]", ok, "no prefix exactly when root_path equals module_path" if ok else f"the empty prefix is used under `{show_formula(g_empty)[:120]}`, not exactly when root_path equals module_path", where(e.fi, e.node), kind="dominance")
+    # ---- the converter: absolute importees are adjusted, relative ones are not
+    sx2 = SymX(repo, T)
+    tr2 = sx2.run(convert)
+    P, I = ("param", cp[1]), ("param", cp[2])
     k2 = 0
-    for c in calls_in(cv.node):
-        ci = T.ctor_class(cv, c)
-        if ci is None:
+    for e in tr2.events:
+        if e.kind != "call" or e.func[0] != "cls":
             continue
-        if ci.name == "AbsoluteImport" and len(c.args) >= 2:
+        cname = e.func[1].rsplit(".", 1)[-1]
+        key = repo.key(e.fi, stmt_of(e.node))
+        if cname == "AbsoluteImport" and len(e.args) >= 2:
             k2 += 1
-            tags = set(fl2.tags(c.args[1]))
-            ok = "ADJ" in tags and "RAWNAME" not in (tags - {"ADJ"}) or tags == {"ADJ"} or ("ADJ" in tags)
-            # every definition reaching the argument must be adjusted: RAWNAME may only appear through the adjusted value joined with alias names
-            res.add("C04.R5", repo.key(cv, stmt_of(c)) + " [absolute importee adjusted]", "ADJ" in tags, "the absolute importee went through the root-prefix adjustment" if "ADJ" in tags else f"`{norm(c, 70)}` builds an absolute import whose name never passed {adj.name}: imports written relative to module_path's parent no longer resolve when a sub-directory is scanned", where(cv, c), kind="flow")
-        if ci.name == "RelativeImport":
+            name = restrict(e.args[1], e.guard)
+            carried = [x for x in subterms(name) if x[0] == "loopvar"]
+            if carried:
+                res.add("C04.R5", key + " [absolute importee adjusted]", False, f"the importee of one imported name depends on the previous one: `{carried[0][1]}` is carried over from an earlier iteration of the loop over the imported names", where(e.fi, e.node), kind="flow")
+                continue
+            verdict, detail = _check_adjusted(sx2, name, P, I, e.guard)
+            if verdict is None:
+                res.undecide("C04.R5", key + " [absolute importee adjusted]", detail, where(e.fi, e.node))
+            else:
+                res.add("C04.R5", key + " [absolute importee adjusted]", verdict, detail, where(e.fi, e.node), kind="decision-table")
+        elif cname == "RelativeImport":
             k2 += 1
-            bad = [a for a in c.args if "ADJ" in fl2.tags(a)]
-            res.add("C04.R5", repo.key(cv, stmt_of(c)) + " [relative importee not adjusted]", not bad, "relative imports are resolved against the importer only" if not bad else "a relative import receives a root-prefix-adjusted name", where(cv, c), kind="flow")
+            bad = [a for a in e.args if P in leaves(a, ("param",))]
+            res.add("C04.R5", key + " [relative importee not adjusted]", not bad, "relative imports are resolved against the importer only" if not bad else "a relative import receives a root-prefix-adjusted name", where(e.fi, e.node), kind="flow")
     res.floor("C04.R5.imports", 3, k2)
-    # the adjustment: prefix + "." + name if that is an internal module, else the name
-    rets = [s for s in own_nodes(adj.node) if isinstance(s, ast.Return)]
-    names_ = adj.param_names[1:]
-    full = [s for s in own_nodes(adj.node) if isinstance(s, ast.Assign) and isinstance(s.value, ast.JoinedStr)]
-    ok = len(rets) == 2 and len(full) == 1 and [norm(v.value) if isinstance(v, ast.FormattedValue) else v.value for v in full[0].value.values] == [names_[1], ".", names_[0]]
-    if ok:
-        fv = dotted(full[0].targets[0])
-        r_full = [r for r in rets if dotted(r.value) == fv]
-        r_plain = [r for r in rets if dotted(r.value) == names_[0]]
-        ok = len(r_full) == 1 and len(r_plain) == 1 and implies(guard_formula(adj, r_full[0]), atom(f"{fv} in {names_[2]}"))
-    res.add("C04.R5", f"{adj.relpath}::{adj.qualname}::adjustment", ok, "prefix.name is used exactly when it is a scanned internal module" if ok else "the root-prefix adjustment is not `prefix.name if that is an internal module else name`", where(adj, adj.node), kind="dominance")
-    return res
+
+
+def _check_adjusted(sx: SymX, name: Term, P: Term, I: Term, guard: Formula = TRUE):
+    """Decision table of an absolute importee over membership of the candidate names in the internal-module set.
+
+    Expected: x = `prefix.n` if that is internal else `n`; for `from n import a`: `x.a` if that is internal else x."""
+    # the raw symbols the name is made of (module / alias names of the ast node), in values and in the guards of choices
+    syms = [x for x in _name_symbols(sx, name, I) if x != P]
+    if any(not (x[0] == "attr" and x[2] in ("name", "module")) for x in syms):
+        odd = next(x for x in syms if not (x[0] == "attr" and x[2] in ("name", "module")))
+        return None, f"cannot tell what `{show(odd, 80)}` contributes to the importee name"
+    mods = [s for s in syms if s[2] == "module"]
+    aliases = [s for s in syms if s[2] == "name"]
+    if len(mods) > 1 or len(aliases) > 1 or not syms:
+        return None, f"cannot tell which names `{show(name, 120)}` is built from"
+    p = ("s", P)
+    if mods:
+        n = ("s", mods[0])
+        a = ("s", aliases[0]) if aliases else None
+    else:
+        n = ("s", aliases[0])
+        a = None
+    universe = [(p, n), (n,)]
+    if a is not None:
+        universe += [(p, n, a), (n, a)]
+    for values in itertools.product([False, True], repeat=len(universe)):
+        facts = dict(zip(universe, values))
+        if a is not None and facts[(p, n, a)] and not facts[(p, n)]:
+            continue  # a scanned module's package is scanned as well
+        x = (p, n) if facts[(p, n)] else (n,)
+        expected = x
+        if a is not None:
+            xa = x + (a,)
+            expected = xa if facts.get(xa, False) else x
+        # scenarios in which this constructor call is not reached do not count
+        env = {}
+        for key in atoms_of(guard):
+            t = sx.atoms.get(key)
+            if t is not None and t[0] == "cmp" and t[1] == "in" and t[3] == I:
+                nm = _concretise(sx, t[2], facts, I)
+                if nm is not None and nm in facts:
+                    env[key] = facts[nm]
+        if env and simplify(substitute(guard, env)) == FALSE:
+            continue
+        got = _concretise(sx, name, facts, I)
+        if got is None:
+            return None, f"cannot evaluate `{show(name, 140)}` for a given set of internal modules"
+        if got != expected:
+            inside = [_show_name(k) for k, v in facts.items() if v]
+            if P not in [q[1] for q in got if q[0] == "s"] and not any(P in leaves(t[2], ("param",)) for t in sx.atoms.values() if t[0] == "cmp" and t[1] == "in" and t[3] == I and any(y == n[1] for y in subterms(t[2]))):
+                why = f"its name never passes the root-prefix adjustment: imports written relative to module_path's parent no longer resolve when a sub-directory is scanned"
+            elif a is not None and len(got) < len(expected):
+                why = "the sub-module test of `from x import y` is made on the un-adjusted name: the importee is the package instead of the sub module"
+            else:
+                why = "the name is not `prefix.name` exactly when that is a scanned module"
+            return False, f"with internal modules {{{', '.join(inside)}}} the importee is `{_show_name(got)}` instead of `{_show_name(expected)}`: {why}"
+    return True, "the absolute importee is `prefix.name` exactly when that is a scanned module" + (" (sub-module test on the adjusted name)" if a is not None else "")
